@@ -90,11 +90,15 @@ func (f *funcAssertionNode) BuildExpr(expr ast.Expr) ast.Expr {
 			Sel: f.Root().GetDeclaringIdent(f.decl),
 		}
 	}
-	return &ast.CallExpr{
+	built := &ast.CallExpr{
 		Fun:      genFunc(),
 		Lparen:   0,
 		Args:     f.args,
 		Ellipsis: 0,
 		Rparen:   0,
 	}
+	if f.call != nil {
+		f.Root().functionContext.sourceCalls[built] = f.call
+	}
+	return built
 }
